@@ -131,23 +131,48 @@ def e1_e2_e3(prog, ctx, t):
                  "events %s are consistent and also minor/major" % bad)
     else:
         ctx.ok("E1", ISO, "consistent set disjoint from minor and major sets")
-    # the order of tests in classify_assignment: all-consistent, any-major, any-minor, else
+    # the decision order of classify_assignment, read off its paths: all-consistent, then any-major, then any-minor, else unexpected
     f = prog.func(LRA, "LongReadAssigner.classify_assignment")
-    chain = [s for s in f.body if isinstance(s, ast.If)]
-    order = []
-    node = chain[-1] if chain else None
-    while isinstance(node, ast.If):
-        txt = src(node.test)
-        for pname in ("is_consistent", "is_major_inconsistency", "is_minor_error"):
-            if pname in txt:
-                quant = "all" if txt.startswith("all(") else ("any" if txt.startswith("any(") else "?")
-                order.append((quant, pname))
-        node = node.orelse[0] if len(node.orelse) == 1 and isinstance(node.orelse[0], ast.If) else None
-    if order != [("all", "is_consistent"), ("any", "is_major_inconsistency"), ("any", "is_minor_error")]:
-        ctx.fail("E1", f, f._qualname, "if/elif chain", "classify_assignment no longer tests all-consistent, any-major, "
-                 "any-minor in that order (found %s)" % order)
+    from ..engine import symexec
+    PRED = [("all", "is_consistent", "consistent"), ("any", "is_major_inconsistency", "major"), ("any", "is_minor_error", "minor")]
+    WANT = {"consistent": {"unique", "ambiguous"}, "major": {"inconsistent", "inconsistent_non_intronic", "inconsistent_ambiguous"},
+            "minor": {"unique_minor_difference", "ambiguous"}, None: {"noninformative"}}
+
+    def pred_of(test):
+        t = test
+        if isinstance(t, ast.Call) and dotted(t.func) in ("all", "any") and t.args:
+            for q, pn, tag in PRED:
+                if dotted(t.func) == q and ("MatchEventSubtype.%s(" % pn) in src(t.args[0]):
+                    return tag
+        return None
+    bad_order = None
+    n_paths = 0
+    for p in flow.paths(f):
+        if p.exit != "return" or p.exit_node is None or getattr(p.exit_node, "value", None) is None:
+            continue
+        seq = [(pred_of(t), pol) for t, pol in p.conds() if pred_of(t)]
+        n_paths += 1
+        tags = [x[0] for x in seq]
+        # prefix of consistent, major, minor; all but the last answered False
+        if tags != ["consistent", "major", "minor"][:len(tags)] or any(pol for _t, pol in seq[:-1]):
+            bad_order = bad_order or (p, "tests %s" % seq)
+            continue
+        decided = seq[-1][0] if seq and seq[-1][1] else None
+        if seq and not seq[-1][1] and len(seq) < 3:
+            bad_order = bad_order or (p, "returns after only %s answered False" % tags)
+            continue
+        env = symexec.run_path(p)
+        val = symexec.subst(p.exit_node.value, env)
+        got = {x.attr for x in ast.walk(val) if isinstance(x, ast.Attribute) and dotted(x.value) == "ReadAssignmentType"}
+        if not got or not got <= WANT[decided]:
+            bad_order = bad_order or (p, "verdict %s when the deciding test is %s" % (sorted(got), decided))
+    if bad_order or n_paths < 4:
+        p, why = bad_order if bad_order else (None, "only %d returning paths" % n_paths)
+        ctx.fail("E1", p.exit_node if p else f, f._qualname, "decision order", "classify_assignment must decide all-consistent, then any-major, "
+                 "then any-minor, then 'unexpected', with the verdicts of each class (%s)" % why, path=p.describe() if p else None)
     else:
-        ctx.ok("E1", "%s:%d" % (LRA, f.lineno), "classify_assignment: all(consistent) -> any(major) -> any(minor) -> unexpected")
+        ctx.ok("E1", "%s:%d" % (LRA, f.lineno), "classify_assignment (%d paths): all(consistent) -> any(major) -> any(minor) -> unexpected, "
+               "each with its own verdicts" % n_paths)
     return em
 
 
@@ -231,8 +256,13 @@ def summarise(func, summaries):
 
 
 def e4(prog, ctx):
-    funcs = {n: prog.func(LRA, "LongReadAssigner." + n) for n in TREE}
-    summaries = {n: {"RA"} for n in TREE}
+    # every method of the class is summarised (helpers extracted from the dispatcher included); obligations are on the TREE entries
+    allm = prog.methods_of(prog.cls(LRA, "LongReadAssigner"), inherited=False)
+    missing = [n for n in TREE if n not in allm]
+    if missing:
+        raise AnalysisError("LongReadAssigner: dispatcher functions %s not found" % missing)
+    funcs = dict(allm)
+    summaries = {n: {"RA"} for n in funcs}
     bad = {}
     for _ in range(6):
         changed = False
@@ -246,6 +276,8 @@ def e4(prog, ctx):
             break
     npaths = 0
     for n, f in funcs.items():
+        if n not in TREE:
+            continue
         allowed = {"RA", "None"} if n in MAY_RETURN_NONE else {"RA"}
         viol = [(p, k) for p, k in bad[n] if k - allowed]
         npaths += len(flow.paths(f))
